@@ -155,7 +155,7 @@ def one_case(ctx, cid, seed, mode):
                     before_cmd += '; touch %s/made-by-before' % it
                     m['node']['children'].append({'name': 'made-by-before', 'node': {'kind': 'file'}})
                 if hb == 'fails':
-                    before_cmd += rng.choice(['; exit 3', '; kill -KILL $$', '; kill -TERM $$'])   # a hook killed by a signal failed too
+                    before_cmd += rng.choice(['; exit 3', '; kill -KILL $$', '; kill -TERM $$', '; exit 127', '; /nonexistent/command-of-the-hook', '; exit 126'])   # a hook killed by a signal failed too
             if ha != 'absent':
                 after_cmd = 'echo after%d >> %s' % (i, hooklog)
                 if is_tree:
@@ -163,7 +163,7 @@ def one_case(ctx, cid, seed, mode):
                     m['node']['children'].append({'name': 'removed-by-after', 'node': {'kind': 'file'}})
                     after_cmd += '; rm %s/removed-by-after' % it
                 if ha == 'fails':
-                    after_cmd += rng.choice(['; exit 4', '; kill -KILL $$'])
+                    after_cmd += rng.choice(['; exit 4', '; kill -KILL $$', '; exit 126', '; no-such-command-anywhere-xyz', '; exit 255'])
             items.append(m)
             cfg_items.append({'path': cfg_path, 'filter': m['filter'], 'before': before_cmd, 'after': after_cmd})
         # overlapping items in the other order: the inner one first, the enclosing one later
